@@ -354,6 +354,71 @@ theorem kindLtrs_law (ks : List Kind) : ∀ l ∈ kindLtrs ks, l.t.Law l.g lawLi
   obtain ⟨k, _, rfl⟩ := List.mem_map.mp hl
   exact kind_law k
 
+/-! ### eight stages keep a block of at most 2^30 bytes below 2^31 bytes -/
+
+/-- a common bound on one stage: `len/16 + 1028` more bytes -/
+def stepB (a : Nat) : Nat := a + a / 16 + 1028
+
+def iterB : Nat → Nat → Nat
+  | 0, a => a
+  | n + 1, a => iterB n (stepB a)
+
+theorem grow_le_stepB (k : Kind) (a : Nat) : max a (k.grow a) ≤ stepB a := by
+  unfold stepB
+  cases k with
+  | srt => show max a (a + 1024 + a / 268435456) ≤ _; omega
+  | fsd =>
+    show max a (FSD.fsdMaxEncodedLen a) ≤ _
+    unfold FSD.fsdMaxEncodedLen
+    simp only [Nat.shiftRight_eq_div_pow]
+    omega
+  | _ => show max a a ≤ _; omega
+
+theorem iterB_mono : ∀ n a b, a ≤ b → iterB n a ≤ iterB n b := by
+  intro n
+  induction n with
+  | zero => intro a b h; exact h
+  | succ n ih =>
+    intro a b h
+    simp only [iterB]
+    apply ih
+    unfold stepB
+    have : a / 16 ≤ b / 16 := Nat.div_le_div_right h
+    omega
+
+theorem iterB_succ_ge (n a : Nat) : iterB n a ≤ iterB (n + 1) a := by
+  simp only [iterB]
+  exact iterB_mono n a (stepB a) (by unfold stepB; omega)
+
+theorem iterB_le_of_le : ∀ n m a, n ≤ m → iterB n a ≤ iterB m a := by
+  intro n m a h
+  induction m with
+  | zero => have : n = 0 := by omega
+            subst this; exact Nat.le_refl _
+  | succ m ih =>
+    by_cases hn : n = m + 1
+    · subst hn; exact Nat.le_refl _
+    · exact Nat.le_trans (ih (by omega)) (iterB_succ_ge m a)
+
+theorem runG_le_iterB : ∀ (ks : List Kind) (s : Nat), runG (kindLtrs ks) s ≤ iterB ks.length s := by
+  intro ks
+  induction ks with
+  | nil => intro s; exact Nat.le_refl _
+  | cons k ks ih =>
+    intro s
+    show runG (kindLtrs ks) (max s (k.grow s)) ≤ iterB ks.length (stepB s)
+    exact Nat.le_trans (ih _) (iterB_mono _ _ _ (grow_le_stepB k s))
+
+/-- at most eight stages on a block of at most 2^30 bytes: every intermediate block is within the length
+limit of the laws -/
+theorem runG_le_lawLim (ks : List Kind) (s : Nat) (hn : ks.length ≤ 8) (hs : s ≤ 2 ^ 30) :
+    runG (kindLtrs ks) s ≤ lawLim := by
+  have h1 := runG_le_iterB ks s
+  have h2 := iterB_le_of_le ks.length 8 s hn
+  have h3 := iterB_mono 8 s (2 ^ 30) hs
+  have h4 : iterB 8 (2 ^ 30) ≤ lawLim := by decide
+  omega
+
 /-! ### no Forward faults
 
 The adapters of `Kind.tr` map a `.fault` of a transform model (a Go panic) to a declined stage.  For
